@@ -96,7 +96,7 @@ NormRows(cell, ids, A) ==   \* inserted atoms are compared modulo the lattice
   [A EXCEPT !.atoms = [i \in DOMAIN A.atoms |-> [A.atoms[i] EXCEPT !.pos = NormKey(cell, ids, <<A.atoms[i].id, @>>)[2]]],
             !.terms = [k \in Kinds |-> {[t EXCEPT !.a = Canon(k, [p \in 1..Arity(k) |-> NormKey(cell, ids, t.a[p])])] : t \in A.terms[k]}]]
 
-JudgeReplace(e) ==
+JudgeReplaceExact(e) ==
   LET S  == Abs(e.pre)
       SP == AbsT(e.sp, "sp")
       RP == AbsT(e.rp, "new")
@@ -129,7 +129,7 @@ JudgeReplace(e) ==
   IN IF e.pre.wf # "ok" \/ ~WFK(e.pre) THEN "blocked:pre-state-malformed"
      ELSE IF e.src_same # "yes" THEN "inputs-unmodified"
      ELSE IF \E a \in 1..n : PosesFor(SP, ms[a]) = {} THEN "blocked:match-not-a-cube-pose"
-     ELSE IF n > 0 /\ ~empty /\ PoseUnderdetermined(SP, RP, ret, rall) THEN "blocked:pose-underdetermined-with-off-axis-atoms"
+
      ELSE IF e.exc = "AtomsShouldNotBeDeletedTwice" THEN
         \* legitimate iff the caller did not ask to ignore it and some allowed selection overlaps
         (IF e.ignore = "yes" THEN "overlap-error-although-ignored"
@@ -171,4 +171,17 @@ JudgeReplace(e) ==
           ELSE IF Y.cell # X.cell THEN "cell"
           ELSE IF ~ConsistentA(Y) THEN "consistent"
           ELSE "ok"
+(* When the pose of a match is not determined by the search pattern (collinear / single-atom pattern with off-axis  *)
+(* replacement atoms) every rotation about the axis is a correct placement and the inserted coordinates need not   *)
+(* be lattice points.  Such a call is accepted when the exact judgement accepts it (the library often uses the      *)
+(* identity or a cube rotation there); otherwise it cannot be judged by exact lattice comparison and is skipped.   *)
+JudgeReplace(e) ==
+  LET v == JudgeReplaceExact(e)
+      SP == AbsT(e.sp, "sp")   RP == AbsT(e.rp, "new")
+      und == Len(e.found) > 0 /\ Len(RP.atoms) > 0 /\ PoseUnderdetermined(SP, RP, Retained(SP, RP), e.replace_all = "yes")
+  IN IF v = "ok" \/ ~und THEN v
+     ELSE IF v \in {"projection", "inserted-atoms-placement", "atoms-data", "bonds", "angles", "dihedrals", "impropers", "consistent",
+                    "blocked:two-matches-insert-the-same-atom-at-the-same-place"}
+          THEN "blocked:pose-underdetermined-with-off-axis-atoms"
+     ELSE v
 =============================================================================
